@@ -313,7 +313,11 @@ fn c11_sample<K: Kit>(spec: &Spec, k: usize, rep: &mut Report) {
                 let sv = K::to_v(&s);
                 rep.distinct.insert(h128(&sv.bits()));
                 if has_unbounded(spec) {
-                    viol(rep, "C11", &format!("{kit}|sample-from-unbounded|{cls}"), "a sample was returned from a space with an unbounded dimension".into(), det(json!({"sample": sv.json()})));
+                    // the statement allows either a state that satisfies the bounds or the documented
+                    // error; a sample from a dimension without a (representable) width is therefore not
+                    // a violation of C11 as long as it satisfies the bounds - it is counted, and what
+                    // law such samples follow is C14's question
+                    rep.count("samples_from_dimensions_without_width", 1);
                 }
                 if !ok {
                     viol(rep, "C11", &format!("{kit}|sample-violates-satisfies_bounds|{cls}"), "the sampled state is rejected by satisfies_bounds".into(), det(json!({"sample": sv.json()})));
@@ -421,6 +425,55 @@ pub fn run_c11(tier: &'static str) -> i32 {
             a.merge(b);
             a
         });
+    // narrow rotation cones (and cones around a non-identity centre), which the scripted word lattice
+    // cannot reach: the real generator over a seed lattice - every streamed sample satisfies the bounds
+    let mut rep = rep;
+    {
+        use rand::SeedableRng;
+        let rx = crate::catalog::quat_axis_angle([1.0, 0.0, 0.0], 90.0);
+        let rz = crate::catalog::quat_axis_angle([0.0, 0.0, 1.0], 170.0);
+        let id = [0.0, 0.0, 0.0, 1.0];
+        let cones: Vec<([f64; 4], f64)> = vec![(id, 0.24), (id, 0.15), (rx, 0.24), (rz, 0.3), (id, 0.4), (rx, 0.8)];
+        let (seeds, per) = if thorough { (128u64, 200usize) } else { (48, 100) };
+        let r = cones
+            .par_iter()
+            .map(|(c, a)| {
+                let mut rep = Report::new();
+                let spec = Spec::So3 { bounds: Some((*c, *a)), frac: None };
+                let bad: Vec<Option<(u64, usize, V, bool, bool)>> = (0..seeds)
+                    .into_par_iter()
+                    .map(|seed| {
+                        let sp = So3::build(&spec);
+                        let mut rng = rand::rngs::StdRng::seed_from_u64(seed);
+                        for i in 0..per {
+                            match guarded(|| sp.sample_uniform(&mut rng)) {
+                                Ok(Ok(s)) => {
+                                    let v = So3::to_v(&s);
+                                    let (ok, model) = (sp.satisfies_bounds(&s), refspace::in_bounds(&spec, &v, 1e-9, 2e-7));
+                                    if !ok || !model {
+                                        return Some((seed, i, v, ok, model));
+                                    }
+                                }
+                                _ => return Some((seed, i, V::So3([f64::NAN; 4]), false, false)),
+                            }
+                        }
+                        None
+                    })
+                    .collect();
+                rep.count("evaluations", seeds * per as u64);
+                rep.count("narrow_cone_stream_samples", seeds * per as u64);
+                if let Some((seed, i, v, ok, model)) = bad.into_iter().flatten().next() {
+                    let what = if !v.all_finite() { "sample_uniform failed or unwound on a real generator stream".to_string() } else { format!("streamed sample {i} of seed {seed}: satisfies_bounds says {ok}, the independent cone model says {model}") };
+                    viol(&mut rep, "C11", "SO3|stream|sample-violates-bounds|narrow-cone", what, json!({"space": spec.json(), "seed": seed, "draw": i, "sample": v.json()}));
+                }
+                rep
+            })
+            .reduce(Report::new, |mut a, b| {
+                a.merge(b);
+                a
+            });
+        rep.merge(r);
+    }
     let meta = CheckMeta {
         prop: "C11",
         tier,
